@@ -864,9 +864,16 @@ func TestC08Child(t *testing.T) {
 		t.Skip("child-process entry point")
 	}
 	hangAfter = time.Duration(hx.EnvInt("C08_CHILD_HANG_S", 3)) * time.Second
-	debug.SetMaxStack(512 << 20)
+	debug.SetMaxStack(hx.EnvInt("C08_CHILD_MAXSTACK_MB", 512) << 20)
 	fx := newFixture()
 	res, f := execGuarded(fx, q)
+	if f != nil && strings.HasPrefix(f.Sig, "C08/hang/unbounded-recursion/") {
+		// A stack that grows without bound ends in a fatal stack overflow sooner or later (sooner on an
+		// idle machine, where this point is never reached). Wait for it, so that one defect has one
+		// signature (C08/crash/stack-overflow/<site>, written by the parent) however fast the machine is;
+		// only a recursion that survives the wait is reported as a hang.
+		time.Sleep(100 * time.Second)
+	}
 	out := childOut{Class: classify(res)}
 	if f != nil {
 		out.Class, out.Sig, out.Msg = "panic-or-hang", f.Sig, f.Msg
